@@ -224,27 +224,44 @@ func runPVSS(c *vf.Check, gn string, n, t int) {
 			B := suite.Point().Base()
 			one := suite.Scalar().One()
 			type mut struct {
-				name string
-				f    func(s *shareSet, i int) // mutates s (a deep copy) at trustee i
+				name      string
+				f         func(s *shareSet, i int) // mutates s (a deep copy) at trustee i
+				batchOnly bool                     // judged by the functions that recompute the challenge themselves
+			}
+			// r*base + c*pub: the right-hand side of a DLEQ verification equation
+			eqn := func(p dleq.Proof, base, pub kyber.Point) kyber.Point {
+				return suite.Point().Add(suite.Point().Mul(p.R, base), suite.Point().Mul(p.C, pub))
 			}
 			j := func(i int) int { return (i + 1) % n }
 			encMuts := []mut{
-				{"S.V+B", func(s *shareSet, i int) { s.enc[i].S.V = suite.Point().Add(s.enc[i].S.V, B) }},
-				{"S.V=other's", func(s *shareSet, i int) { s.enc[i].S.V = s.enc[j(i)].S.V.Clone() }},
-				{"S.V=O", func(s *shareSet, i int) { s.enc[i].S.V = suite.Point().Null() }},
-				{"S.I=other", func(s *shareSet, i int) { s.enc[i].S.I = uint32(j(i)); s.sH[i] = s.poly.Eval(uint32(j(i))).V }},
-				{"P.C+1", func(s *shareSet, i int) { s.enc[i].P.C = suite.Scalar().Add(s.enc[i].P.C, one) }},
-				{"P.C=other-sharing", func(s *shareSet, i int) { s.enc[i].P.C = other.gc.Clone() }},
-				{"P.R+1", func(s *shareSet, i int) { s.enc[i].P.R = suite.Scalar().Add(s.enc[i].P.R, one) }},
-				{"P.R=0", func(s *shareSet, i int) { s.enc[i].P.R = suite.Scalar().Zero() }},
-				{"P.VG+B", func(s *shareSet, i int) { s.enc[i].P.VG = suite.Point().Add(s.enc[i].P.VG, B) }},
-				{"P.VH+B", func(s *shareSet, i int) { s.enc[i].P.VH = suite.Point().Add(s.enc[i].P.VH, B) }},
-				{"P.VG<->P.VH", func(s *shareSet, i int) { s.enc[i].P.VG, s.enc[i].P.VH = s.enc[i].P.VH, s.enc[i].P.VG }},
-				{"P=other's", func(s *shareSet, i int) { s.enc[i].P = cloneShare(s.enc[j(i)]).P }},
-				{"share<->other", func(s *shareSet, i int) { s.enc[i], s.enc[j(i)] = s.enc[j(i)], s.enc[i] }},
-				{"X<->other", func(s *shareSet, i int) { s.X[i], s.X[j(i)] = s.X[j(i)], s.X[i] }},
-				{"sH+B", func(s *shareSet, i int) { s.sH[i] = suite.Point().Add(s.sH[i], B) }},
-				{"share-of-other-sharing", func(s *shareSet, i int) { s.enc[i] = cloneShare(other.enc[i]) }},
+				{"S.V+B", func(s *shareSet, i int) { s.enc[i].S.V = suite.Point().Add(s.enc[i].S.V, B) }, false},
+				{"S.V=other's", func(s *shareSet, i int) { s.enc[i].S.V = s.enc[j(i)].S.V.Clone() }, false},
+				{"S.V=O", func(s *shareSet, i int) { s.enc[i].S.V = suite.Point().Null() }, false},
+				{"S.I=other", func(s *shareSet, i int) { s.enc[i].S.I = uint32(j(i)); s.sH[i] = s.poly.Eval(uint32(j(i))).V }, false},
+				{"P.C+1", func(s *shareSet, i int) { s.enc[i].P.C = suite.Scalar().Add(s.enc[i].P.C, one) }, false},
+				{"P.C=other-sharing", func(s *shareSet, i int) { s.enc[i].P.C = other.gc.Clone() }, false},
+				{"P.R+1", func(s *shareSet, i int) { s.enc[i].P.R = suite.Scalar().Add(s.enc[i].P.R, one) }, false},
+				{"P.R=0", func(s *shareSet, i int) { s.enc[i].P.R = suite.Scalar().Zero() }, false},
+				{"P.VG+B", func(s *shareSet, i int) { s.enc[i].P.VG = suite.Point().Add(s.enc[i].P.VG, B) }, false},
+				{"P.VH+B", func(s *shareSet, i int) { s.enc[i].P.VH = suite.Point().Add(s.enc[i].P.VH, B) }, false},
+				{"P.VG<->P.VH", func(s *shareSet, i int) { s.enc[i].P.VG, s.enc[i].P.VH = s.enc[i].P.VH, s.enc[i].P.VG }, false},
+				{"P=other's", func(s *shareSet, i int) { s.enc[i].P = cloneShare(s.enc[j(i)]).P }, false},
+				{"share<->other", func(s *shareSet, i int) { s.enc[i], s.enc[j(i)] = s.enc[j(i)], s.enc[i] }, false},
+				{"X<->other", func(s *shareSet, i int) { s.X[i], s.X[j(i)] = s.X[j(i)], s.X[i] }, false},
+				{"sH+B", func(s *shareSet, i int) { s.sH[i] = suite.Point().Add(s.sH[i], B) }, false},
+				{"share-of-other-sharing", func(s *shareSet, i int) { s.enc[i] = cloneShare(other.enc[i]) }, false},
+				// two fields altered consistently with the verification equations (a forged proof for a false
+				// statement): only the Fiat-Shamir challenge stands in the way, so the functions that recompute it must refuse
+				{"S.V+B with P.VH recomputed from its equation", func(s *shareSet, i int) {
+					s.enc[i].S.V = suite.Point().Add(s.enc[i].S.V, B)
+					s.enc[i].P.VH = eqn(s.enc[i].P, s.X[i], s.enc[i].S.V)
+				}, true},
+				{"P.VG and P.VH recomputed for S.V+B and a shifted response", func(s *shareSet, i int) {
+					s.enc[i].S.V = suite.Point().Add(s.enc[i].S.V, B)
+					s.enc[i].P.R = suite.Scalar().Add(s.enc[i].P.R, one)
+					s.enc[i].P.VG = eqn(s.enc[i].P, H, s.sH[i])
+					s.enc[i].P.VH = eqn(s.enc[i].P, s.X[i], s.enc[i].S.V)
+				}, true},
 			}
 			if n < 2 {
 				continue
@@ -271,6 +288,9 @@ func runPVSS(c *vf.Check, gn string, n, t int) {
 							affected = append(affected, j(i))
 						}
 						for _, a := range affected {
+							if m.batchOnly {
+								break // VerifyEncShare / DecShare take the expected challenge from the caller
+							}
 							if err := pvss.VerifyEncShare(suite, H, s.X[a], s.sH[a], ss.gc, s.enc[a]); err == nil {
 								x.Failf(pk+"/altered-enc-accepted", "%s: altered encrypted share of trustee %d passes VerifyEncShare", id, a)
 							}
@@ -324,17 +344,27 @@ func runPVSS(c *vf.Check, gn string, n, t int) {
 			})
 			// mutations of decrypted shares
 			decMuts := []mut{
-				{"S.V+B", func(s *shareSet, i int) { s.dec[i].S.V = suite.Point().Add(s.dec[i].S.V, B) }},
-				{"S.V=other's", func(s *shareSet, i int) { s.dec[i].S.V = s.dec[j(i)].S.V.Clone() }},
-				{"S.V=O", func(s *shareSet, i int) { s.dec[i].S.V = suite.Point().Null() }},
-				{"S.I=other", func(s *shareSet, i int) { s.dec[i].S.I = uint32(j(i)) }},
-				{"S.I=n+3", func(s *shareSet, i int) { s.dec[i].S.I = uint32(n + 3) }},
-				{"P.C+1", func(s *shareSet, i int) { s.dec[i].P.C = suite.Scalar().Add(s.dec[i].P.C, one) }},
-				{"P.R+1", func(s *shareSet, i int) { s.dec[i].P.R = suite.Scalar().Add(s.dec[i].P.R, one) }},
-				{"P.VG+B", func(s *shareSet, i int) { s.dec[i].P.VG = suite.Point().Add(s.dec[i].P.VG, B) }},
-				{"P.VH+B", func(s *shareSet, i int) { s.dec[i].P.VH = suite.Point().Add(s.dec[i].P.VH, B) }},
-				{"P.VG<->P.VH", func(s *shareSet, i int) { s.dec[i].P.VG, s.dec[i].P.VH = s.dec[i].P.VH, s.dec[i].P.VG }},
-				{"dec<->other", func(s *shareSet, i int) { s.dec[i], s.dec[j(i)] = s.dec[j(i)], s.dec[i] }},
+				{"S.V+B", func(s *shareSet, i int) { s.dec[i].S.V = suite.Point().Add(s.dec[i].S.V, B) }, false},
+				{"S.V=other's", func(s *shareSet, i int) { s.dec[i].S.V = s.dec[j(i)].S.V.Clone() }, false},
+				{"S.V=O", func(s *shareSet, i int) { s.dec[i].S.V = suite.Point().Null() }, false},
+				{"S.I=other", func(s *shareSet, i int) { s.dec[i].S.I = uint32(j(i)) }, false},
+				{"S.I=n+3", func(s *shareSet, i int) { s.dec[i].S.I = uint32(n + 3) }, false},
+				{"P.C+1", func(s *shareSet, i int) { s.dec[i].P.C = suite.Scalar().Add(s.dec[i].P.C, one) }, false},
+				{"P.R+1", func(s *shareSet, i int) { s.dec[i].P.R = suite.Scalar().Add(s.dec[i].P.R, one) }, false},
+				{"P.VG+B", func(s *shareSet, i int) { s.dec[i].P.VG = suite.Point().Add(s.dec[i].P.VG, B) }, false},
+				{"P.VH+B", func(s *shareSet, i int) { s.dec[i].P.VH = suite.Point().Add(s.dec[i].P.VH, B) }, false},
+				{"P.VG<->P.VH", func(s *shareSet, i int) { s.dec[i].P.VG, s.dec[i].P.VH = s.dec[i].P.VH, s.dec[i].P.VG }, false},
+				{"dec<->other", func(s *shareSet, i int) { s.dec[i], s.dec[j(i)] = s.dec[j(i)], s.dec[i] }, false},
+				{"S.V+B with P.VH recomputed from its equation", func(s *shareSet, i int) {
+					s.dec[i].S.V = suite.Point().Add(s.dec[i].S.V, B)
+					s.dec[i].P.VH = eqn(s.dec[i].P, s.dec[i].S.V, s.enc[i].S.V)
+				}, false},
+				{"S.V+B with shifted response and both commitments recomputed", func(s *shareSet, i int) {
+					s.dec[i].S.V = suite.Point().Add(s.dec[i].S.V, B)
+					s.dec[i].P.R = suite.Scalar().Add(s.dec[i].P.R, one)
+					s.dec[i].P.VG = eqn(s.dec[i].P, G, s.X[i])
+					s.dec[i].P.VH = eqn(s.dec[i].P, s.dec[i].S.V, s.enc[i].S.V)
+				}, false},
 			}
 			for i := 0; i < n; i++ {
 				for _, m := range decMuts {
